@@ -511,6 +511,7 @@ class C17(CheckBase):
         faults = trace.get('faults', [])
         fault_run = bool(faults)
         torn = [f for f in faults if f['kind'] == 'torn']
+        keep = None
         if torn:
             keep = int(torn[0]['keep_frac'] * len(data))
             fs.truncate(path, keep)
@@ -544,9 +545,11 @@ class C17(CheckBase):
         fs.eio_plan = {}
         present = None
         if grid is not None:
-            self._check_meta(grid, spec, path, V, strict=not torn)
+            self._check_meta(grid, spec, path, V, keep, layout)
             if torn:
-                present = set(grid.subgrids)
+                # only sub-grids whose 176-byte header survived completely are judged
+                present = set(s['name'] for k, s in enumerate(spec['subgrids'])
+                              if layout[k] <= keep and s['name'] in grid.subgrids)
         model = Model(spec, present)
         judged = 0
         if grid is not None:
@@ -575,13 +578,18 @@ class C17(CheckBase):
                      for s in sgs)
         return '%dsub/%dnested%s' % (len(sgs), nested, '/deep' if depth2 else '')
 
-    def _check_meta(self, grid, spec, path, V, strict=True):
+    def _check_meta(self, grid, spec, path, V, keep=None, layout=None):
+        """keep: number of bytes that survived in a torn file (None = whole file).
+        Fields lying (partly) beyond the surviving prefix are not judged."""
+        strict = keep is None
         h = dict(gs_type='SECONDS', version='NTv2.0', system_f='GDA94', system_t='GDA2020',
                  major_f=6378137.0, minor_f=6356752.314, major_t=6378137.0, minor_t=6356752.314)
         h.update(spec.get('header', {}))
         want = {'num_orec': 11, 'num_srec': 11, 'num_file': len(spec['subgrids'])}
         want.update(h)
         for k, v in want.items():
+            if keep is not None and keep < 176:
+                break
             got = getattr(grid, k, '<missing>')
             if got != v:
                 V('metadata', 'header.' + k, {'written': v, 'read': repr(got)})
@@ -590,10 +598,12 @@ class C17(CheckBase):
         names = [s['name'] for s in spec['subgrids']]
         if strict and sorted(grid.subgrids) != sorted(names):
             V('metadata', 'subgrid-names', {'written': names, 'read': sorted(grid.subgrids)})
-        for s in spec['subgrids']:
+        for kk, s in enumerate(spec['subgrids']):
             g = grid.subgrids.get(s['name'])
             if g is None:
                 continue
+            if keep is not None and layout[kk] > keep:
+                continue        # this sub-grid's header was cut by the tear
             b = _bbox(s)
             chk = [('sub_name', s['name'], 0), ('parent', s['parent'], 0), ('s_lat', b[0], 0.001), ('n_lat', b[1], 0.001),
                    ('e_long', b[2], 0.001), ('w_long', b[3], 0.001), ('lat_inc', s['lat_inc'], 1e-6),
@@ -649,8 +659,8 @@ class C17(CheckBase):
                 res, status = e, 'raised'
             fs.eio_plan = {}
             log.add('tf', op['id'], status, repr(res) if status == 'ok' else type(res).__name__)
-            if fault_run and status != 'ok' and loc is not None:
-                bump('fault_run_op_raised')
+            if fault_run and (status == 'raised' or (status != 'ok' and loc is not None)):
+                bump('fault_run_op_raised')     # narrow relaxation: under EIO / torn file the call may raise
                 return 0
             if loc is None:
                 if status != 'ValueError':
